@@ -176,7 +176,7 @@ class _Norm:
         for _round in range(6):
             step = False
             for t in (self.foreign_constants, self.constant_tables, self.spread_stars, self.unbound_method_calls, self.local_tables, self.generator_calls, self.quantifiers_over_displays,
-                      self.helpers_in_comprehensions, self.fuse_comprehensions, self.dict_forms, self.list_building):
+                      self.helpers_in_comprehensions, self.lazy_streams, self.fuse_comprehensions, self.dict_forms, self.list_building):
                 got = t()
                 if DEBUG and got:
                     print(f"[c10_util] {self.raw.qn}: {t.__name__}")
@@ -873,6 +873,92 @@ class _Norm:
 
         Outer().visit(self.fn)
         return changed[0]
+
+    # -------------------------------------------------------------- lazy streams: g = (E for ..) used once; zip of maps over one sequence
+    def lazy_streams(self) -> bool:
+        fn = self.fn
+        changed = False
+        # a generator expression bound to a name that is read exactly once is written where it is read
+        for _ in range(8):
+            hit = None
+            for blk_owner in ast.walk(fn):
+                for fld in ("body", "orelse", "finalbody"):
+                    blk = getattr(blk_owner, fld, None)
+                    if not (isinstance(blk, list) and blk and isinstance(blk[0], ast.stmt)):
+                        continue
+                    for st in blk:
+                        if isinstance(st, ast.Assign) and len(st.targets) == 1 and isinstance(st.targets[0], ast.Name) and isinstance(st.value, ast.GeneratorExp):
+                            nm = st.targets[0].id
+                            if _stores(fn, nm) == 1 and _uses(fn, nm) == 1 and not _uses(st.value, nm) \
+                                    and not any(_stores(fn, x.id) > 1 for x in ast.walk(st.value) if isinstance(x, ast.Name) and isinstance(x.ctx, ast.Load)):
+                                hit = (blk, st, nm)
+                                break
+                    if hit:
+                        break
+                if hit:
+                    break
+            if not hit:
+                break
+            blk, st, nm = hit
+            blk.remove(st)
+            if not blk:
+                blk.append(ast.copy_location(ast.Pass(), st))
+            _Subst({nm: st.value}).visit(fn) if False else None
+            for n in ast.walk(fn):
+                for f_, v in ast.iter_fields(n):
+                    if isinstance(v, ast.Name) and v.id == nm and isinstance(v.ctx, ast.Load):
+                        setattr(n, f_, st.value)
+                    elif isinstance(v, list):
+                        for i, x in enumerate(v):
+                            if isinstance(x, ast.Name) and x.id == nm and isinstance(x.ctx, ast.Load):
+                                v[i] = st.value
+            changed = True
+        # zip((E1 for a in X), (E2 for b in X), X)  over ONE sequence X (a name / attribute path)  ->  ((E1, E2', x) for x in X)
+        local = self._local()
+        did = [False]
+
+        class T(ast.NodeTransformer):
+            def visit_Call(self, c):
+                self.generic_visit(c)
+                if not (isinstance(c.func, ast.Name) and c.func.id == "zip" and "zip" not in local and len(c.args) >= 2 and not c.keywords):
+                    return c
+                comps = [a for a in c.args if isinstance(a, (ast.GeneratorExp, ast.ListComp))]
+                if not comps:
+                    return c
+                base = None
+                for a in c.args:
+                    if isinstance(a, (ast.GeneratorExp, ast.ListComp)):
+                        if len(a.generators) != 1 or a.generators[0].ifs or a.generators[0].is_async or not isinstance(a.generators[0].target, ast.Name):
+                            return c
+                        it = a.generators[0].iter
+                    else:
+                        it = a
+                    if not _is_pure(it) or isinstance(it, ast.Constant):
+                        return c
+                    if base is None:
+                        base = it
+                    elif ast.dump(base) != ast.dump(it):
+                        return c
+                root = base
+                while isinstance(root, ast.Attribute):
+                    root = root.value
+                if not isinstance(root, ast.Name) or root.id not in local:
+                    return c        # a sequence the function received / built (iterating it again gives the same elements)
+                k = next(_counter)
+                var = f"item__z{k}"
+                elts = []
+                for a in c.args:
+                    if isinstance(a, (ast.GeneratorExp, ast.ListComp)):
+                        elts.append(_subst(a.elt, {a.generators[0].target.id: ast.Name(id=var, ctx=ast.Load())}))
+                    else:
+                        elts.append(ast.Name(id=var, ctx=ast.Load()))
+                new = ast.GeneratorExp(elt=ast.Tuple(elts=elts, ctx=ast.Load()),
+                                       generators=[ast.comprehension(target=ast.Name(id=var, ctx=ast.Store()), iter=copy.deepcopy(base), ifs=[], is_async=0)])
+                did[0] = True
+                return _fix(ast.copy_location(new, c), c)
+
+        T().visit(fn)
+        return changed or did[0]
 
     # -------------------------------------------------------------- T4b comprehension over a comprehension
     def fuse_comprehensions(self) -> bool:
